@@ -684,6 +684,14 @@ def corpus_stream(ctx):
 
 
 def run(ctx):
+    try:
+        return _run(ctx)
+    except BaseException:
+        shutil.rmtree(ctx.workdir, ignore_errors=True)      # never leave scratch files behind, even when the harness itself fails
+        raise
+
+
+def _run(ctx):
     ctx.prove()
     rng = ctx.rng
     quick = ctx.tier == "quick"
